@@ -4,7 +4,7 @@
 cd /verif
 export GOFLAGS=-mod=mod GOPROXY=off GOSUMDB=off GOTOOLCHAIN=local
 VC=${VCHECK:-/verif/bin/vcheck}
-seeds="$@"; [ -z "$seeds" ] && seeds=$(ls seeded)
+seeds="$@"; [ -z "$seeds" ] && seeds=$(cd seeded; ls -d */ | tr -d /)
 for s in $seeds; do
   d=/verif/seeded/$s
   prop=$(python3 -c "import json;print(json.load(open('$d/meta.json'))['property'])")
